@@ -870,6 +870,7 @@ type loopSpec struct {
 	bodyPos  token.Pos
 	hidden   string
 	hiddenBound *Term
+	syncKey  func(*State) // range loops: the key variable equals the hidden index wherever invariants are evaluated
 }
 
 func (x *Exec) loopContract(ord int) *LoopContract {
@@ -947,6 +948,9 @@ func (x *Exec) runLoop(st *State, ls *loopSpec, k cont) {
 		if ls.hiddenBound != nil {
 			h.assume(Cmp("<=", hi, *ls.hiddenBound), "hidden-index")
 		}
+		if ls.syncKey != nil {
+			ls.syncKey(h)
+		}
 	}
 	if lc != nil {
 		for _, inv := range lc.Invariants {
@@ -997,6 +1001,9 @@ func (x *Exec) runLoop(st *State, ls *loopSpec, k cont) {
 		x.anchor(s, fmt.Sprintf("end loop %d", ls.ord), ls.bodyPos, ls.ord)
 		if ls.post != nil {
 			ls.post(s)
+		}
+		if ls.syncKey != nil {
+			ls.syncKey(s)
 		}
 		if lc != nil {
 			for i, inv := range lc.Invariants {
@@ -1185,6 +1192,9 @@ func (x *Exec) rangeStmt(st *State, s *ast.RangeStmt, k cont) {
 		ls.post = func(st *State) { st.ghost[hidden] = Add(st.ghost[hidden], Int(1)) }
 		ls.autoDec = func(st *State) (Term, bool) { return Sub(n, st.ghost[hidden]), true }
 		ls.hiddenBound = &n
+		if keyObj != nil {
+			ls.syncKey = func(st *State) { st.vars[keyObj] = sc(st.ghost[hidden]) }
+		}
 		// hidden index is loop-modified
 		x.runLoopHidden(st, ls, hidden, k)
 	case OpaqueV:
